@@ -26,6 +26,10 @@ func init() {
 }
 
 type c33Runner struct {
+	keepRole bool
+	valVer   uint64
+	valSet   map[uint64]bool
+	valKnown bool
 	rnode    *network.VerifC33RelayNode
 	peerIDs  []uint64
 	peerCT   []uint64
@@ -119,6 +123,7 @@ func (r *c33Runner) Step(t []string, o *Oracle) string {
 		r.accepted, r.lastAcc = 0, map[uint64]int{}
 		r.rnode = network.VerifC33NewRelayNode(c33ID(0), uint8(nb), uint16(bl), int(role))
 		r.peerIDs, r.peerCT, r.peerHP, r.peerSeen = nil, nil, nil, nil
+		r.valVer, r.valSet, r.valKnown = 0, nil, false
 		return "ok"
 	case "peer":
 		if len(t) != 4 || r.rnode == nil {
@@ -141,6 +146,55 @@ func (r *c33Runner) Step(t []string, o *Oracle) string {
 		r.peerHP = append(r.peerHP, hp == 1)
 		r.peerSeen = append(r.peerSeen, map[uint64]bool{})
 		return fmt.Sprintf("ok %d", idx)
+	case "setval":
+		if len(t) != 3 || r.rnode == nil {
+			return "bad-op"
+		}
+		ver, ok := u(t[1], 32)
+		if !ok {
+			return "bad-op"
+		}
+		var ids [][]byte
+		var set []uint64
+		if t[2] != "_" {
+			for _, x := range strings.Split(t[2], ",") {
+				v, ok := u(x, 16)
+				if !ok {
+					return "bad-op"
+				}
+				ids = append(ids, c33ID(v))
+				set = append(set, v)
+			}
+		}
+		r.rnode.SetValidators(int64(ver), ids)
+		if ver > r.valVer {
+			// an empty list is stored but (Clear fires no onUpdate) does not revoke roles: boundary,
+			// an empty validator set cannot occur on a running chain; the oracle is suspended
+			r.valVer, r.valSet, r.valKnown = ver, map[uint64]bool{}, len(set) > 0
+			for _, v := range set {
+				r.valSet[v] = true
+			}
+		}
+		o.Count("setval")
+		// property: exactly the connected peers of the current validator set carry the root role
+		for i, id := range r.peerIDs {
+			has := r.rnode.PeerRole(i)&2 == 2
+			o.Check(!r.valKnown || has == r.valSet[id], "c33-root-role-out-of-sync-with-validator-set",
+				"peer %d: root role %v, in current validator set %v", id, has, r.valSet[id])
+		}
+		return "ok"
+	case "rpkt2":
+		if len(t) != 7 || r.rnode == nil {
+			return "bad-op"
+		}
+		idx, ok := u(t[1], 16)
+		if !ok || int(idx) >= len(r.peerIDs) {
+			return "bad-op"
+		}
+		r.keepRole = true
+		defer func() { r.keepRole = false }()
+		role := r.rnode.PeerRole(int(idx))
+		return r.Step([]string{"rpkt", t[1], strconv.Itoa(role), t[2], t[3], t[4], t[5], t[6]}, o)
 	case "rpkt":
 		if len(t) != 8 || r.rnode == nil {
 			return "bad-op"
@@ -156,7 +210,16 @@ func (r *c33Runner) Step(t []string, o *Oracle) string {
 			return "bad-op"
 		}
 		r.peerSeen[idx][hash] = true
-		res, relayed := r.rnode.OnPacketFrom(int(idx), int(role), c33ID(src), byte(dest), byte(ttl), hash, rel == 1)
+		goRole := int(role)
+		if r.keepRole {
+			goRole = -1 // the role the node itself maintains (SetRole history)
+		}
+		res, relayed := r.rnode.OnPacketFrom(int(idx), goRole, c33ID(src), byte(dest), byte(ttl), hash, rel == 1)
+		if r.keepRole && r.valKnown && res == "deliver" && dest == 0 && ttl == 0 && r.peerIDs[idx] == src {
+			o.Check(r.valSet[src], "c33-broadcast-origin-not-in-validator-set",
+				"originator broadcast of peer %d delivered, current validator set (version %d) does not contain it", src, r.valVer)
+			o.Count("origin-broadcast-by-current-validator")
+		}
 		o.Count("rpkt-" + res)
 		peer := r.peerIDs[idx]
 		oneHop := ttl != 0 || dest == 0xFF
@@ -525,6 +588,71 @@ func c33GenRelay(g *Gen) {
 	g.Emit("state")
 }
 
+// role-change histories: validator sets installed, shrunk, grown, replaced while peers stay
+// connected; each connected peer then originates a broadcast
+func c33GenRoles(g *Gen) {
+	g.Emit("rnode %d %d %d", g.Pick(3, 4), g.Pick(2, 3), g.Pick(0, 0, 2))
+	np := 3 + g.Intn(4)
+	for i := 0; i < np; i++ {
+		g.Emit("peer %d %d 1", i+1, g.Pick(1, 2, 2, 5, 6))
+	}
+	cur := map[int]bool{}
+	emit := func(ver int) {
+		var l []string
+		for id := 1; id <= np+2; id++ {
+			if cur[id] {
+				l = append(l, strconv.Itoa(id))
+			}
+		}
+		if len(l) == 0 {
+			g.Emit("setval %d _", ver)
+		} else {
+			g.Emit("setval %d %s", ver, strings.Join(l, ","))
+		}
+	}
+	hash := uint64(9000)
+	probe := func() {
+		for i := 0; i < np; i++ {
+			if g.Intn(3) != 0 {
+				hash++
+				g.Emit("rpkt2 %d %d 0 0 %d %d", i, i+1, hash, g.Intn(2))
+			}
+		}
+	}
+	ver := 0
+	for step := 0; step < 3+g.Intn(5); step++ {
+		switch g.Intn(5) {
+		case 0: // add only
+			cur[1+g.Intn(np+2)] = true
+		case 1, 2: // remove only
+			for id := range cur {
+				if g.Intn(2) == 0 {
+					delete(cur, id)
+				}
+			}
+		case 3: // replace
+			cur = map[int]bool{}
+			for id := 1; id <= np+2; id++ {
+				if g.Intn(2) == 0 {
+					cur[id] = true
+				}
+			}
+		default: // grow and shrink
+			cur[1+g.Intn(np)] = true
+			delete(cur, 1+g.Intn(np))
+		}
+		ver++
+		if g.Intn(8) == 0 {
+			emit(ver - 1) // stale version: ignored
+			ver--
+		} else {
+			emit(ver)
+		}
+		probe()
+	}
+	g.Emit("state")
+}
+
 // concurrent stress: rounds of the same packet offered by 8 goroutines at once,
 // to the pool directly and through onPacket (schedule sampling)
 func c33GenConc(g *Gen) {
@@ -560,6 +688,11 @@ func c33Gen(g *Gen) {
 	for c := 0; c < g.N; c++ {
 		if g.Intn(8) == 0 {
 			c33GenConc(g)
+			g.Emit("reset")
+			continue
+		}
+		if g.Intn(7) == 0 {
+			c33GenRoles(g)
 			g.Emit("reset")
 			continue
 		}
